@@ -149,6 +149,36 @@ def audit_axioms(prop, module, theorems, extra_modules=()):
 
 
 # ---------------------------------------------------------------------------------------
+# change-triggered widening: when /repo's sources differ from the hashes recorded at the last `./check pin`, the hand-written
+# models may have drifted, so the quick tier explores with several seeds instead of one (the seed-sampled systematic generators
+# then cover their whole enumeration). It changes how much is explored, never what counts as a violation.
+
+PINNED = os.path.join(VERIF, "lib", "pinned_sources.json")
+
+
+def source_hashes():
+    import hashlib
+    out = {}
+    r = sh(["git", "-C", REPO, "ls-files", "*.go"])
+    names = [n for n in r.stdout.split("\n") if n and not n.endswith("_test.go")]
+    for n in names:
+        try:
+            out[n] = hashlib.sha256(open(os.path.join(REPO, n), "rb").read()).hexdigest()
+        except OSError:
+            out[n] = "missing"
+    return out
+
+
+def changed_sources():
+    try:
+        pinned = json.load(open(PINNED))
+    except Exception:
+        return ["(no pinned_sources.json)"]
+    cur = source_hashes()
+    return sorted(n for n in set(pinned) | set(cur) if pinned.get(n) != cur.get(n))
+
+
+# ---------------------------------------------------------------------------------------
 # correspondence channels
 
 
@@ -172,6 +202,7 @@ def run_channel(prop, ch, tier, seed):
         return {"channel": ch, "error": "serve failed: go=%s lean=%s %s %s" % (pg.returncode, pl.returncode, eg[-500:], el[-500:])}
     n = 0
     diffs = []
+    hint_reqs = []
     ndiff = 0
     with open(req) as fr, open(go_out) as fg, open(lean_out) as fl:
         for rq in fr:
@@ -182,11 +213,13 @@ def run_channel(prop, ch, tier, seed):
                 ndiff += 1
                 if len(diffs) < 25:
                     diffs.append({"index": n, "request": rq.strip()[:4000], "go": g.strip()[:2000], "lean": l.strip()[:2000]})
+                if len(hint_reqs) < 3000 and len(rq) < 2000:
+                    hint_reqs.append(rq.strip())
         extra = fg.readline() or fl.readline()
         if extra:
             ndiff += 1
             diffs.append({"index": n + 1, "request": "(length mismatch)", "go": "", "lean": ""})
-    return {"channel": ch, "requests": n, "disagreements": ndiff, "diffs": diffs}
+    return {"channel": ch, "requests": n, "disagreements": ndiff, "diffs": diffs, "hint_requests": hint_reqs}
 
 
 def build_race():
@@ -353,12 +386,27 @@ def check(prop, tier, seed):
             else:
                 discharged += 1
 
+    changed = changed_sources()
+    seeds = [seed]
+    if changed and tier == "quick":
+        seeds = [seed, seed + 1, seed + 2, seed + 3]
+        notes["widened"] = "sources differ from lib/pinned_sources.json (%s): quick tier explored with seeds %s" % (", ".join(changed[:8]), seeds)
+
     # correspondence channels (outside the build lock)
     channels = []
     if os.path.exists(DRIVER):
         for ch in cfg.get("channels", []):
             obligations += 1
             st = run_channel(prop, ch, tier, seed)
+            for sd in seeds[1:]:
+                if st.get("error") or st["disagreements"]:
+                    break
+                st2 = run_channel(prop, ch, tier, sd)
+                if st2.get("error"):
+                    st = st2
+                else:
+                    st2["requests"] += st["requests"]
+                    st = st2
             channels.append(st)
             if st.get("error"):
                 broken.append({"kind": "channel", "name": ch, "detail": st["error"]})
@@ -371,7 +419,7 @@ def check(prop, tier, seed):
             elif st["disagreements"]:
                 broken.append({"kind": "channel", "name": ch,
                                "detail": "%d of %d requests differ; first: %s" % (st["disagreements"], st["requests"], json.dumps(st["diffs"][0])[:1500]),
-                               "diffs": st["diffs"]})
+                               "diffs": st["diffs"], "hint_requests": st.get("hint_requests", [])})
             else:
                 discharged += 1
 
@@ -382,11 +430,21 @@ def check(prop, tier, seed):
         extra = []
         # inputs on which a channel disagreed are searched first
         hints = [d["request"] for b in broken if b.get("diffs") for d in b["diffs"]]
+        hints += [h for b in broken for h in b.get("hint_requests", []) if h not in set(hints)]
         if hints:
             hp = os.path.join(BUILD, "run", prop, "hints.req")
             open(hp, "w").write("\n".join(hints) + "\n")
             extra = ["--hints", hp]
         pred = run_pred(prop, tier, seed, extra, race=bool(cfg.get("race")))
+        for sd in seeds[1:]:
+            if pred.get("error") or pred.get("failures"):
+                break
+            p2 = run_pred(prop, tier, sd, extra, race=bool(cfg.get("race")))
+            if not p2.get("error"):
+                for k in ("evaluations", "distinct_nontrivial"):
+                    if isinstance(p2.get(k), int) and isinstance(pred.get(k), int):
+                        p2[k] += pred[k]
+            pred = p2
         if pred.get("error"):
             broken.append({"kind": "predicate", "name": "mfh prop " + prop, "detail": pred["error"]})
         else:
@@ -513,6 +571,10 @@ def main(argv):
         return 2
     if argv[0] == "setup":
         return setup()
+    if argv[0] == "pin":
+        json.dump(source_hashes(), open(PINNED, "w"), indent=1, sort_keys=True)
+        print("pinned %d source files of %s" % (len(source_hashes()), REPO))
+        return 0
     prop = argv[0]
     if prop not in PROPS.PROPS:
         print("unknown property", prop)
